@@ -95,6 +95,7 @@ func (cache *TxCache) evictLeastLikelyToSelectTransactions() *evictionJournal {
 	}
 
 	journal := &evictionJournal{}
+	verifPoint("txcache.eviction.afterSnapshot")
 
 	// Heap is reused among passes.
 	// Items popped from the heap are added to "transactionsToEvict" (slice is re-created in each pass).
@@ -159,6 +160,8 @@ func (cache *TxCache) evictLeastLikelyToSelectTransactions() *evictionJournal {
 			removedHashes := cache.txListBySender.removeTransactionsWithHigherOrEqualNonce([]byte(sender), nonce)
 			_ = cache.txByHash.RemoveTxsBulk(removedHashes)
 		}
+
+		verifPoint("txcache.eviction.betweenIndexes")
 
 		// Remove those transactions from "txByHash".
 		_ = cache.txByHash.RemoveTxsBulk(transactionsToEvictHashes)
